@@ -192,6 +192,9 @@ pub enum Spec {
     Nbh { seed: &'static str, k: usize, cap: usize },
     /// the exhaustive presentation space of pspace.rs
     PSpace { max_fields: usize, recursion: bool },
+    /// the repository's own accepted grammar files (examples, parser.kiki), through the reference front end,
+    /// and their neighbourhoods of `k` edits (capped)
+    Files { k: usize, cap: usize },
 }
 
 impl Spec {
@@ -200,6 +203,7 @@ impl Spec {
             Spec::G(s) => s.name(),
             Spec::Nbh { seed, k, .. } => format!("Nbh({seed},{k})"),
             Spec::PSpace { max_fields, recursion } => format!("PresentationSpace(fields<={max_fields}{})", if *recursion { ",recursive" } else { "" }),
+            Spec::Files { k, .. } => format!("RepositoryGrammars(+{k} edits)"),
         }
     }
 }
@@ -285,7 +289,8 @@ pub fn sweep(specs: &[Spec], budget_s: f64, per_case: &(dyn Fn(&Case, u64, &mut 
                 (accs, json!({"neighbourhood_size": list.len(), "neighbourhood_capped_at": if was_capped { json!(cap) } else { Value::Null }}))
             }
             Spec::PSpace { max_fields, recursion } => {
-                let pats = crate::pspace::patterns(*max_fields, *recursion);
+                let mut pats = crate::pspace::patterns(*max_fields, *recursion);
+                pats.extend(crate::pspace::long_patterns(crate::pspace::LONG_MAX));
                 let accs: Vec<Acc> = pats
                     .par_chunks(32)
                     .enumerate()
@@ -301,6 +306,42 @@ pub fn sweep(specs: &[Spec], budget_s: f64, per_case: &(dyn Fn(&Case, u64, &mut 
                     })
                     .collect();
                 (accs, json!({"patterns": pats.len()}))
+            }
+            Spec::Files { k, cap } => {
+                let mut cases: Vec<Case> = vec![];
+                let mut names = vec![];
+                for (name, src) in crate::corpus::accepted_repo_sources() {
+                    if let Some(c) = case_from_source(&src) {
+                        names.push(name);
+                        if *k > 0 {
+                            let (list, _) = neighbourhood(&c.g, *k, *cap);
+                            for (j, gr) in list.into_iter().enumerate().skip(1) {
+                                // neighbours keep the seed's presentation where the production count allows it
+                                let mut pres = c.pres.clone();
+                                if gr.prods.len() != c.g.prods.len() || gr.prods.iter().zip(&c.g.prods).any(|(a, b)| a.0 != b.0 || a.1.len() != b.1.len()) {
+                                    pres = Presentation::rotating(&gr, j as u64);
+                                }
+                                cases.push(Case::new(gr, pres));
+                            }
+                        }
+                        cases.push(c);
+                    }
+                }
+                let accs: Vec<Acc> = cases
+                    .par_iter()
+                    .enumerate()
+                    .map(|(i, case)| {
+                        let mut acc = Acc::default();
+                        if over() {
+                            capped.store(true, std::sync::atomic::Ordering::Relaxed);
+                            return acc;
+                        }
+                        per_case(case, (i as u64) | (1 << 62), &mut acc);
+                        acc.inc("grammars");
+                        acc
+                    })
+                    .collect();
+                (accs, json!({"files": names, "cases": cases.len()}))
             }
         };
         let mut sacc = Acc::default();
@@ -718,12 +759,12 @@ pub fn reference_or_note(case: &Case, acc: &mut Acc) -> Option<Reference> {
 fn specs_for(tier: Tier) -> Vec<Spec> {
     match tier {
         Tier::Quick => {
-            let mut v = vec![g(2, 2, 3, 3)];
+            let mut v = vec![g(2, 2, 3, 3), Spec::Files { k: 0, cap: 0 }];
             v.extend(all_seed_nbh(1, 1, 100_000));
             v
         }
         Tier::Thorough => {
-            let mut v = vec![g(2, 2, 3, 3), g(2, 3, 4, 2), g(3, 2, 4, 2), gsym(2, 2, 4, 3), g(1, 3, 4, 3), gsym(3, 3, 3, 2)];
+            let mut v = vec![g(2, 2, 3, 3), g(2, 3, 4, 2), g(3, 2, 4, 2), gsym(2, 2, 4, 3), g(1, 3, 4, 3), gsym(3, 3, 3, 2), Spec::Files { k: 1, cap: 3000 }];
             v.extend(all_seed_nbh(2, 1, 60_000));
             v
         }
@@ -835,4 +876,102 @@ pub fn replay(property: &str, kind: &str, case: &Value) -> Option<Vec<Finding>> 
         _ => return None,
     }
     Some(acc.findings)
+}
+
+// ---------------------------------------------------------------------------------------------
+// Cases derived from arbitrary (valid) Kiki sources through the reference front end
+
+/// Builds a case (abstract grammar + presentation reproducing the names, fieldset styles, declaration
+/// order, attributes and payload types) from a source text that the reference front end accepts and
+/// the reference validator finds no violation in.
+pub fn case_from_source(src: &str) -> Option<Case> {
+    use crate::reffront::*;
+    let (file, _) = parse_source(src).ok()?;
+    if !violations(&file).is_empty() {
+        return None;
+    }
+    let start = file.items.iter().find_map(|i| if let RItem::Start(n) = i { Some(n.name.clone()) } else { None })?;
+    // nonterminals in declaration order; index 0 is the start symbol
+    let declared: Vec<&RItem> = file.items.iter().filter(|i| matches!(i, RItem::Struct { .. } | RItem::Enum { .. })).collect();
+    let name_of = |i: &RItem| match i {
+        RItem::Struct { name, .. } | RItem::Enum { name, .. } => name.name.clone(),
+        _ => String::new(),
+    };
+    let mut order: Vec<usize> = (0..declared.len()).collect(); // index -> position in `declared`
+    let spos = declared.iter().position(|d| name_of(d) == start)?;
+    order.remove(spos);
+    order.insert(0, spos);
+    let index_of_name = |n: &str| order.iter().position(|p| name_of(declared[*p]) == n);
+    let (tok_name, terminals, tok_attrs) = file.items.iter().find_map(|i| if let RItem::Terminal { name, variants, attrs } = i { Some((name.name.clone(), variants.clone(), attrs.clone())) } else { None })?;
+    let t_index = |n: &str| terminals.iter().position(|t| t.name.name == n);
+    let mut prods: Vec<(u8, Vec<Sym>)> = vec![];
+    let mut pres = Presentation { decl_order: vec![], single_as_struct: vec![false; declared.len()], styles: vec![], layout: 0, naming: 0, attribute: String::new(), payload: "()".into(), names: Default::default() };
+    // declaration order in terms of indices
+    for dpos in 0..declared.len() {
+        pres.decl_order.push(order.iter().position(|p| *p == dpos)? as u8);
+    }
+    for (idx, dpos) in order.iter().enumerate() {
+        let item = declared[*dpos];
+        pres.names.insert(format!("n{idx}"), name_of(item));
+        let mut add_prod = |fs: &RFieldset, variant: Option<&str>, prods: &mut Vec<(u8, Vec<Sym>)>, pres: &mut Presentation| -> Option<()> {
+            let pi = prods.len();
+            let mut rhs = vec![];
+            let mut mask = 0u32;
+            for (j, f) in fs.fields().iter().enumerate() {
+                rhs.push(if f.sym.terminal { Sym::T(t_index(&f.sym.name)? as u8) } else { Sym::N(index_of_name(&f.sym.name)? as u8) });
+                if f.skipped {
+                    mask |= 1 << j;
+                }
+                if let Some(n) = &f.name {
+                    pres.names.insert(format!("f{pi}_{j}"), n.name.clone());
+                }
+            }
+            if rhs.len() > 30 {
+                return None;
+            }
+            pres.styles.push(ProdStyle { named: matches!(fs, RFieldset::Named(_)), skip_mask: mask });
+            if let Some(v) = variant {
+                pres.names.insert(format!("v{pi}"), v.to_string());
+            }
+            prods.push((idx as u8, rhs));
+            Some(())
+        };
+        match item {
+            RItem::Struct { fieldset, attrs, .. } => {
+                pres.single_as_struct[idx] = true;
+                add_prod(fieldset, None, &mut prods, &mut pres)?;
+                if !attrs.is_empty() {
+                    pres.names.insert(format!("a{idx}"), attrs.join("\n"));
+                }
+            }
+            RItem::Enum { variants, attrs, .. } => {
+                for v in variants {
+                    add_prod(&v.fieldset, Some(&v.name.name), &mut prods, &mut pres)?;
+                }
+                if !attrs.is_empty() {
+                    pres.names.insert(format!("a{idx}"), attrs.join("\n"));
+                }
+            }
+            _ => {}
+        }
+    }
+    pres.names.insert("tok".into(), tok_name);
+    if !tok_attrs.is_empty() {
+        pres.names.insert("atok".into(), tok_attrs.join("\n"));
+    }
+    for (i, t) in terminals.iter().enumerate() {
+        pres.names.insert(format!("t{i}"), t.name.name.clone());
+        pres.names.insert(format!("p{i}"), t.ty.tokens().join(" ").replace(" :: ", "::").replace(" , ", ", ").replace("< ", "<").replace(" >", ">").replace(" <", "<").replace("( )", "()"));
+    }
+    if terminals.len() > 60 || declared.len() > 200 {
+        return None;
+    }
+    let g = Grammar { n: declared.len(), t: terminals.len(), prods };
+    let case = Case::new(g, pres);
+    // the re-rendered source must describe the same grammar: parse it back and compare the abstract grammar
+    let (file2, _) = parse_source(&case.rendered.source).ok()?;
+    if !violations(&file2).is_empty() {
+        return None;
+    }
+    Some(case)
 }
